@@ -43,6 +43,7 @@ Definition classify (last msn : Z) : mcls :=
   else if negb (msn =? 0) && (last >=? msn) then MStale
   else if msn =? last + 1 then MExp else MZero.
 Record hmsg := mkmsg { m_typ : Z; m_body : body; m_cls : mcls }.   (* m_cls is read by DTLS sessions only *)
+Definition erase (m : hmsg) : hmsg := mkmsg (m_typ m) (m_body m) MExp.   (* what the accepted-message log keeps of a message *)
 
 Inductive input := ICcs | IHs (m : hmsg).
 Inductive item := MCcs | MHs (m : hmsg).                 (* accepted ChangeCipherSpec / handshake messages, in order *)
@@ -160,7 +161,7 @@ Definition body_ok (b : body) : bool := match b with BPlain => true | _ => false
 
 (* message enters the accepted log; [hashed]: it also enters the transcript hash *)
 Definition accept (s : hst) (m : hmsg) (hashed : bool) : hst :=
-  let s1 := set_lastccs (set_acc s (acc s ++ [MHs m])) false in
+  let s1 := set_lastccs (set_acc s (acc s ++ [MHs (erase m)])) false in
   if hashed then set_tr s1 (tr s1 ++ [Rx (m_typ m)]) else s1.
 Definition wrote (s : hst) (flight : Z) : hst := set_tr s (tr s ++ [Tx flight]).
 
@@ -365,7 +366,7 @@ Definition step12 (s : hst) (m : hmsg) : hst * out :=
       let s2 := if eqb (hs s1) FIN then set_snap s1 (tr s1) else s1 in
       let s3 := set_tr s2 (tr s2 ++ [Rx (m_typ m)]) in
       match handler12 s3 m with
-      | (s4, OAccept r) => (set_lastccs (set_acc s4 (acc s4 ++ [MHs m])) false, OAccept r)
+      | (s4, OAccept r) => (set_lastccs (set_acc s4 (acc s4 ++ [MHs (erase m)])) false, OAccept r)
       | (_, OHvr) => (s, OHvr)            (* stateless: nothing of this ClientHello is kept *)
       | r => r
       end
@@ -376,10 +377,13 @@ Definition ccs12 (s : hst) : hst * out :=
   let ok (s1 : hst) := (set_lastccs (set_acc s1 (acc s1 ++ [MCcs])) true, OAccept false) in
   if dtls s then
     (* DTLS (sslDecode.c 1327-1352): outside FINISHED the record is skipped ("possible to get the changeCipherSpec message out of
-       order"); in FINISHED it is taken - also a further one, which is how the ChangeCipherSpec of a retransmitted flight looks
-       (the sender bumps its epoch with every ChangeCipherSpec it sends) - unless the promised NewSessionTicket is outstanding *)
+       order").  In FINISHED it is taken unless the promised NewSessionTicket is outstanding.  A further one before Finished is
+       taken again (fix C06-2 exempts DTLS): that is how the ChangeCipherSpec of a RETRANSMITTED flight looks - it has no
+       message_seq, and the sender bumps its epoch with every ChangeCipherSpec it sends; the read epoch moves on, nothing that
+       this machine tracks changes and it is not a further message of the sequence *)
     if eqb (hs s) FIN then
-      if negb (server s) && eqb (tick s) T_RECVD_EXT then fatal s UNEXPECTED else ok (set_rsec s true)
+      if lastccs s then (s, OIgnore)
+      else if negb (server s) && eqb (tick s) T_RECVD_EXT then fatal s UNEXPECTED else ok (set_rsec s true)
     else (s, ODrop false)
   else if eqb (hs s) FIN then
     if lastccs s then fatal s UNEXPECTED
